@@ -774,21 +774,19 @@ def runLoadIP (f : List String) (impl : String) : Ans :=
   | _ => bad
 
 /-- go-jose's JSONWebKey.UnmarshalJSON verdict per generated element kind (contract, exercised):
-    0 = rejected, 1 = accepted usable key, 2 = accepted and it is the probe token's key, 3 = accepted as a nil key -/
+    0 = rejected, 1 = accepted usable key, 2 = accepted and it is the probe token's key.
+    A `null` element is rejected by readKeyFile itself ("null key in <file>", /repo 55abf79; before that fix it was
+    accepted as a nil key and the next request panicked in provideKey). -/
 def jwkKind (k : String) : Option Nat :=
   if k == "oct0" then some 2
   else if ["oct1", "octempty", "rsa", "ec"].contains k then some 1
-  else if k == "null" then some 3
-  else if ["octnok", "octbad64", "rsanon", "ecoff", "ecnocrv", "nokty", "unkkty", "lckty", "num", "str", "emptyobj"].contains k then some 0
+  else if ["null", "octnok", "octbad64", "rsanon", "ecoff", "ecnocrv", "nokty", "unkkty", "lckty", "num", "str", "emptyobj"].contains k then some 0
   else none
-
-def nilDeref : String := "PANIC:runtime error: invalid memory address or nil pointer dereference"
 
 /-- validateToken over the loaded keys with a valid HS256 token of key oct0 -/
 def probeKeys : List Nat → String
   | [] => "resp:401:" ++ hexField (challenge "Bearer" [82])
   | 2 :: _ => "goon"
-  | 3 :: _ => nilDeref
   | _ :: rest => probeKeys rest
 
 def runLoadKeys (f : List String) (impl : String) : Ans :=
@@ -800,13 +798,8 @@ def runLoadKeys (f : List String) (impl : String) : Ans :=
       if !["arr", "obj", "garbage", "empty", "trail", "ws"].contains top then bad
       else
         let accept := (top == "arr" || top == "ws") && !ks.contains 0
-        let m := if accept then (let p := probeKeys ks; if p == nilDeref then p else "ok:" ++ toString ks.length ++ ":" ++ p) else "err"
-        -- specification: a JWK file "must follow RFC 7517": a null element is not a key and must be rejected
-        let verdict :=
-          if accept && ks.contains 3 then
-            (if impl == "err" then "ok" else if impl == m then "FAIL:jwt-null-key-accepted" else "FAIL:keyfile-wrong-result")
-          else loaderVerdict "keyfile" m impl
-        { model := m, verdict := verdict,
+        let m := if accept then "ok:" ++ toString ks.length ++ ":" ++ probeKeys ks else "err"
+        { model := m, verdict := loaderVerdict "keyfile" m impl,
           tags := ["lk", if accept then "lk-accept" else "lk-reject"] ++ (if ks.isEmpty then [] else ["nt"]) }
   | _ => bad
 
